@@ -889,15 +889,30 @@ def _writer_threaded(ctg, case, cfg, directory, fsim, seed_tag):
                     results[i] = {"path": t.get_path(), "sliced": tuple(t.sliced_inds)}
             return fn
 
-        errs = sched.run([body(0), body(1)], [2001, 2002], [None, None])
+        # a thread that sleeps (DiskDict's retry loop) lets the other one run
+        clk_ = simclock._ACTIVE
+        prev_hook = clk_.sleep_hook if clk_ is not None else None
+        if clk_ is not None:
+            clk_.sleep_hook = lambda: sched.yield_now(sched.index_of_current())
+        try:
+            errs = sched.run([body(0), body(1)], [2001, 2002], [None, None])
+        finally:
+            if clk_ is not None:
+                clk_.sleep_hook = prev_hook
     crashed = fsim.crashed
+    from sim.threads import HarnessError as _HE
+
     for e in errs:
-        if e is not None and not isinstance(e, simfs.SimCrash):
+        if isinstance(e, _HE):
             raise e
     res = None
-    if not crashed and 0 in results and 1 in results:
-        res = dict(results[0])
-        res["also"] = results[1]
+    ok = [i for i in (0, 1) if i in results]
+    if not crashed and ok:
+        # (a writer thread that fails without a kill - e.g. refused because the other one is storing the same entry - is
+        # that thread's business; the crash-consistency oracle works with what the surviving thread was given)
+        res = dict(results[ok[0]])
+        if len(ok) == 2:
+            res["also"] = results[ok[1]]
     return fsim, res, crashed
 
 
